@@ -21,6 +21,7 @@ func init() {
 		inCampaign(r, "C02")
 		liveInputLeg(r)
 		opInputLeg(r)
+		transcriptLeg(r, "C02", map[string]int{"quick": 300, "thorough": 3000}[r.Tier])
 	})
 	register("C11", "model_checking", func(r *ev.Run) {
 		inCampaign(r, "C11")
